@@ -4,6 +4,7 @@ package harness
 
 import (
 	"context"
+	"errors"
 	"fmt"
 	"net/http"
 	"reflect"
@@ -36,6 +37,7 @@ type c16Case struct {
 	Layers      []c16Layer
 	Base        string // HTTP carriers: base path on both sides ("" = "/")
 	ClientBidi  bool   // the client opens streams with a {client,server}-streaming descriptor whatever the method's flags (as generic proxies do)
+	SiblingView bool   // a second WithInterceptor view of the same parent registry is created before the service is registered through ours
 	LateInt     bool   // in-process: the channel's interceptors are configured after the service was registered
 	NoSlash     bool   // the client names the method without the leading slash (both transports accept that); interceptors are still told the canonical name
 	Shared      bool   // the same decorated description is registered with a second carrier that has its own transport interceptors
@@ -47,6 +49,9 @@ type c16Case struct {
 	CallStream  bool // which method is called
 	Index       int  // index among the unary / stream methods
 	HandlerFail bool
+	// HandlerPlain (with HandlerFail): the handler returns a plain Go error value; every interceptor on the way
+	// out is handed that very value (error mapping by identity works)
+	HandlerPlain bool
 }
 
 type c16Log struct {
@@ -109,6 +114,11 @@ func c16UnaryInt(id string, beh string, lg *c16Log, wantMethod string) grpc.Unar
 			}
 		case "rw-err":
 			return nil, status.Error(codes.Aborted, "rewritten by "+id)
+		case "map-err":
+			// error mapping by identity: works only if the interceptor is handed the handler's own error value
+			if err == c16ErrSentinel {
+				return nil, status.Error(codes.NotFound, "mapped by "+id)
+			}
 		}
 		return resp, err
 	}
@@ -133,11 +143,19 @@ func c16StreamInt(id string, beh string, lg *c16Log) grpc.StreamServerIntercepto
 		if beh == "rw-err" {
 			return status.Error(codes.Aborted, "rewritten by "+id)
 		}
+		if beh == "map-err" && err == c16ErrSentinel {
+			return status.Error(codes.NotFound, "mapped by "+id)
+		}
 		return err
 	}
 }
 
 const c16Svc = "verif.I16"
+
+// c16ErrSentinel: a plain (non-status) error value some handlers return; interceptors see that very value
+var c16ErrSentinel = errors.New("record not found")
+
+const c16SentinelCode = codes.Code(9999) // model-only: "the sentinel error, not yet turned into a status"
 
 func (c *c16Case) desc(lg *c16Log) *grpc.ServiceDesc {
 	d := &grpc.ServiceDesc{ServiceName: c16Svc, HandlerType: (*svcIface)(nil), Metadata: "i16.proto"}
@@ -152,6 +170,9 @@ func (c *c16Case) desc(lg *c16Log) *grpc.ServiceDesc {
 			h := func(ctx context.Context, req interface{}) (interface{}, error) {
 				lg.add("handler:%s[%s]", full, c16Marks(ctx))
 				if c.HandlerFail {
+					if c.HandlerPlain {
+						return nil, c16ErrSentinel
+					}
 					return nil, status.Error(codes.DataLoss, "handler failed")
 				}
 				return &pb.Message{Count: req.(*pb.Message).Count, Code: 7}, nil
@@ -169,6 +190,9 @@ func (c *c16Case) desc(lg *c16Log) *grpc.ServiceDesc {
 			for stream.RecvMsg(new(pb.Message)) == nil {
 			}
 			if c.HandlerFail {
+				if c.HandlerPlain {
+					return c16ErrSentinel
+				}
 				return status.Error(codes.DataLoss, "handler failed")
 			}
 			return nil
@@ -254,6 +278,9 @@ func (c *c16Case) model() (log []string, count, code int32, errCode codes.Code) 
 		if k == len(chain) {
 			log = append(log, "handler:"+full+"["+ms+"]")
 			if c.HandlerFail {
+				if c.HandlerPlain {
+					return 0, 0, c16SentinelCode
+				}
 				return 0, 0, codes.DataLoss
 			}
 			return cnt, 7, codes.OK
@@ -278,6 +305,9 @@ func (c *c16Case) model() (log []string, count, code int32, errCode codes.Code) 
 			if e.beh == "rw-err" {
 				return 0, 0, codes.Aborted
 			}
+			if e.beh == "map-err" && ec == c16SentinelCode {
+				return 0, 0, codes.NotFound
+			}
 			return a, b, ec
 		}
 		log = append(log, fmt.Sprintf("u:%s:%s[%s]", e.id, full, ms))
@@ -298,10 +328,17 @@ func (c *c16Case) model() (log []string, count, code int32, errCode codes.Code) 
 			}
 		case "rw-err":
 			return 0, 0, codes.Aborted
+		case "map-err":
+			if ec == c16SentinelCode {
+				return 0, 0, codes.NotFound
+			}
 		}
 		return a, b, ec
 	}
 	count, code, errCode = run(0, 5, nil)
+	if errCode == c16SentinelCode {
+		errCode = codes.Unknown // a plain error nobody mapped reaches the caller as Unknown
+	}
 	return
 }
 
@@ -324,6 +361,7 @@ func propC16(c c16Case) *Outcome {
 		d = nd
 	}
 	wrapReg := func(r grpc.ServiceRegistrar) grpc.ServiceRegistrar {
+		var parent grpc.ServiceRegistrar
 		// the first reg layer must end up outermost, i.e. closest to the real registry
 		for i := 0; i < len(c.Layers); i++ {
 			l := c.Layers[i]
@@ -334,7 +372,14 @@ func propC16(c c16Case) *Outcome {
 			if l.Unary == "" && l.Stream == "" && !sameRegistrar(nr, r) {
 				return nil
 			}
+			if !sameRegistrar(nr, r) {
+				parent = r
+			}
 			r = nr
+		}
+		if c.SiblingView && parent != nil {
+			// a second view of the same parent, made after ours and before we register: not our business
+			grpchan.WithInterceptor(parent, c16UnaryInt("SIBLING", "sc-err", lg, ""), c16StreamInt("SIBLING", "sc-err", lg))
 		}
 		return r
 	}
@@ -398,9 +443,20 @@ func propC16(c c16Case) *Outcome {
 				configure()
 			}
 			conn = ch
-		case cHTTP, cHTTPMux:
+		case cHTTP, cHTTPMux, cHTTPPer:
 			var h http.Handler
-			if c.Carrier == cHTTP {
+			if c.Carrier == cHTTPPer {
+				// per-method handlers built from the registered (possibly decorated) description
+				hm := grpchan.HandlerMap{}
+				r := wrapReg(hm)
+				if r == nil {
+					return o.failf("WithInterceptor with no interceptors returned a different registry")
+				}
+				r.RegisterService(d, srvObj)
+				mux := http.NewServeMux()
+				hm.ForEach(func(rd *grpc.ServiceDesc, rh interface{}) { perMethodMux(mux, base, rd, rh, tu, ts) })
+				h = mux
+			} else if c.Carrier == cHTTP {
 				so := []httpgrpc.ServerOption{httpgrpc.WithBasePath(base)}
 				if tu != nil {
 					so = append(so, httpgrpc.WithServerUnaryInterceptor(tu))
@@ -561,17 +617,18 @@ func c16DirectStream(d *grpc.ServiceDesc, idx int, srv interface{}, ts grpc.Stre
 	return sd.Handler(srv, fs)
 }
 
-var c16UBeh = []string{"", "pass", "pass", "ctx-val", "sc-err", "sc-resp", "rw-req", "rw-resp", "rw-err"}
-var c16SBeh = []string{"", "pass", "pass", "ctx-val", "sc-err", "sc-ok", "rw-err"}
+var c16UBeh = []string{"", "pass", "pass", "map-err", "ctx-val", "sc-err", "sc-resp", "rw-req", "rw-resp", "rw-err"}
+var c16SBeh = []string{"", "pass", "pass", "map-err", "ctx-val", "sc-err", "sc-ok", "rw-err"}
 
 func genC16(t *rapid.T) c16Case {
-	c := c16Case{Carrier: rapid.SampledFrom([]string{"direct", cInproc, cHTTP, cHTTPMux}).Draw(t, "carrier")}
+	c := c16Case{Carrier: rapid.SampledFrom([]string{"direct", cInproc, cHTTP, cHTTPMux, cHTTPPer}).Draw(t, "carrier")}
 	c.NUnary = rapid.IntRange(1, 4).Draw(t, "nunary")
 	ns := rapid.IntRange(1, 4).Draw(t, "nstreams")
 	for i := 0; i < ns; i++ {
 		c.Streams = append(c.Streams, c15Stream{Name: fmt.Sprintf("S%d", i), CS: rapid.Bool().Draw(t, "cs"), SS: rapid.Bool().Draw(t, "ss")})
 	}
-	nl := rapid.IntRange(0, 3).Draw(t, "nlayers")
+	nl := rapid.OneOf(rapid.IntRange(0, 3), rapid.IntRange(0, 7)).Draw(t, "nlayers")
+	c.SiblingView = rapid.IntRange(0, 2).Draw(t, "siblingview") == 0
 	for i := 0; i < nl; i++ {
 		c.Layers = append(c.Layers, c16Layer{Via: rapid.SampledFrom([]string{"desc", "desc", "reg"}).Draw(t, "via"), Unary: rapid.SampledFrom(c16UBeh).Draw(t, "ubeh"), Stream: rapid.SampledFrom(c16SBeh).Draw(t, "sbeh")})
 	}
@@ -583,11 +640,12 @@ func genC16(t *rapid.T) c16Case {
 	} else {
 		c.Index = rapid.IntRange(0, c.NUnary-1).Draw(t, "idx")
 	}
-	c.HandlerFail = rapid.IntRange(0, 4).Draw(t, "hfail") == 0
+	c.HandlerFail = rapid.IntRange(0, 3).Draw(t, "hfail") == 0
+	c.HandlerPlain = c.HandlerFail && rapid.Bool().Draw(t, "hplain")
 	c.ClientBidi = rapid.IntRange(0, 2).Draw(t, "clientbidi") == 0
 	c.NoSlash = rapid.IntRange(0, 4).Draw(t, "noslash") == 0
 	c.LateInt = rapid.IntRange(0, 3).Draw(t, "lateint") == 0
-	if c.Carrier == cHTTP || c.Carrier == cHTTPMux {
+	if isHTTP(c.Carrier) {
 		c.Base = rapid.SampledFrom([]string{"", "", "/api/", "/v1/rpc"}).Draw(t, "base")
 	}
 	if rapid.IntRange(0, 2).Draw(t, "shared") == 0 {
@@ -602,7 +660,7 @@ func init() { registerReplay("C16", propC16) }
 
 const c16Rule = "rapid-generated: descriptor (1..4 unary + 1..4 stream methods, all flag combinations) x 0..3 decoration layers via InterceptServer / WithInterceptor, each with nil or non-nil unary and stream interceptors x transport-level interceptors nil or set x behaviour per interceptor (pass, short-circuit error, short-circuit response, rewrite request, rewrite response, rewrite error) x handler ok/fail, dispatched directly on the decorated descriptor, through the in-process channel, httpgrpc.Server and HandleServices; " +
 	"oracle = model interpreter: ordered event log (transport interceptor, decorations outermost first, handler iff everybody calls onward; full method names and stream flags as logged by the interceptors) and final response/status must be equal; snapshot of the original ServiceDesc unchanged; no interceptors => same pointer; " +
-	"also generated since the seeded rounds: the same decorated description on a second carrier, non-root base paths, interceptors deriving a context (markers must be visible downstream), clients opening streams with a bidi descriptor whatever the method's flags, slashless method names on the in-process channel, channel interceptors configured after registration; " +
+	"also generated since the seeded rounds: the same decorated description on a second carrier, non-root base paths, interceptors deriving a context (markers must be visible downstream), clients opening streams with a bidi descriptor whatever the method's flags, slashless method names on the in-process channel, channel interceptors configured after registration, up to 7 decoration layers, a sibling WithInterceptor view of the same parent registry, the per-method HTTP server form; " +
 	"non-trivial = >=2 interceptors in the chain or a short-circuit; distinct by case hash"
 
 func TestC16(t *testing.T) {
